@@ -1,16 +1,24 @@
 (* C16 -- derived arrays hold the same elements and behave like fresh ones.
 
-   What is a theorem here:
+   What is a theorem here (all closed under the global context):
+   * the index logic of GeometryArray.__getitem__ / take / _concat_same_type /
+     copy / iteration as transcribed in Model/Derive.v computes Python's list
+     semantics (Spec/DeriveSpec.v): slices with any start/stop/step on both
+     code paths, integer indexing, take with and without allow_fill, boolean
+     masks, integer arrays, concatenation -- with the class of every error;
    * every buffer-level quantity modelled in Coq (bounds, total_bounds and its
      x/y projections, isna, len of Model/Bounds.v, Model/Arrow.v) is a function
      of the decoded element list only, for EVERY well-formed buffer
-     representation (any offset, any parent buffers, any validity bitmap);
-   * every derivation step of Model/Derive.v (the transcription of
-     GeometryArray.__getitem__ / take / _concat_same_type / copy) commutes with
-     every slot-wise map, hence so does every finite history; errors included.
-   length / area / intersects / intersects_bounds / hilbert_distance are
-   array-is-map theorems of their own properties (C01, C02, C07, C08, C14) and
-   are compared derived-vs-fresh by harness/c16.py, not re-proved here. *)
+     representation (any offset, any parent buffers, any validity bitmap), and
+     pyarrow's nested reading of the buffers agrees with the library's flat one;
+   * every derivation step commutes with every slot-wise map, hence so does
+     every finite history; errors included.
+   Not theorems here (partial): that pyarrow's slice / take / concat_arrays
+   produce well-formed buffers decoding to the model's element list is asserted
+   on every run by harness/c16.py, not proved; length / area / intersects /
+   intersects_bounds / hilbert_distance are array-is-map theorems of their own
+   properties (C01, C02, C07, C08, C14) and are compared derived-vs-fresh by
+   harness/c16.py, not re-proved here. *)
 From Coq Require Import ZArith List Bool.
 From SP Require Import Model.Num Model.Arrow Model.Bounds Spec.BoundsSpec
   Model.Derive Spec.DeriveSpec Proofs.BoundsProofs Proofs.DeriveProofs
@@ -150,6 +158,14 @@ Print Assumptions C16_concat_spec.
 Theorem C16_iter_spec : forall (X : Type) (na : X) l, array_iter na l = Ok l.
 Proof. exact @array_iter_spec. Qed.
 Print Assumptions C16_iter_spec.
+
+Theorem C16_slice_sanity : forall (X : Type) (na : X) (l : list X),
+  run_step na (GetSlice None None None) l = Ok l /\
+  run_step na Reverse l = Ok (rev l) /\
+  run_step na SCopy l = Ok l.
+Proof. exact (fun X na l => conj (getitem_full_slice na l)
+                              (conj (reverse_spec na l) (copy_spec na l))). Qed.
+Print Assumptions C16_slice_sanity.
 
 (* ---- everything together: a = source, a' = ANY well-formed representation
         of the array the history produced ---- *)
